@@ -443,26 +443,26 @@ def step_harnesses(tier, seed, pid):
         if pid == 'C08':
             combos = [D + ('default', False, True, 'one', None), D + ('default', False, False, 'one', 'raise')]
     else:
-        combos = []
-        for preset in ('default', 'noise', 'soft-restarts', 'soft-restarts-autodetect', 'hard-restarts', 'regression-geom',
-                       'regression-momentum', 'diagnostics'):
-            combos.append(D + (preset, False, False, 'one', None))
-        for preset in ('growing', 'growing-perturb', 'growing-safety-geom', 'growing-reduce-delta'):
-            combos.append((2, 1, 3, 2, preset, False, False, 'one', None))
-        combos.append((1, 1, 3, 3, 'default', False, False, 'one', None))
-        combos.append(D + ('default', True, False, 'one', None))
-        combos.append(D + ('default', False, False, 2, None))
-        combos.append(D + ('noise', False, False, 2, None))
-        if pid in ('C03', 'C04'):
-            combos.append(D + ('soft-restarts-2geom', False, False, 'one', None))
-        if pid in ('C18', 'C03', 'C02'):
-            combos.append(D + ('soft-restarts-increase-npt', False, False, 'one', None))
-        if pid in ('C08', 'C10'):
-            combos.append(D + ('default', False, True, 'one', None))
-        if pid == 'C08':
-            combos = [D + ('default', False, True, 'one', None), D + ('default', False, False, 'one', 'raise'),
-                      D + ('soft-restarts', False, True, 'one', None), D + ('noise', False, True, 'one', None),
-                      D + ('default', False, True, 2, None), D + ('default', True, True, 'one', None)]
+        G = (2, 1, 3, 2)
+        one = lambda preset, dims=D, h=False, xr=False, ns='one', fault=None: dims + (preset, h, xr, ns, fault)
+        THOROUGH = {
+            'C02': [one('default'), one('default', ns=2), one('noise', ns=2), one('soft-restarts'), one('hard-restarts'), one('growing', G),
+                    one('regression-geom'), one('soft-restarts-increase-npt')],
+            'C03': [one('default'), one('soft-restarts'), one('soft-restarts-2geom'), one('hard-restarts'), one('regression-momentum'),
+                    one('growing', G), one('default', h=True), one('default', ns=2), one('default', (1, 1, 3, 3)), one('soft-restarts-increase-npt')],
+            'C04': [one('default'), one('soft-restarts'), one('soft-restarts-2geom'), one('regression-geom'), one('regression-momentum'),
+                    one('growing', G), one('growing-perturb', G), one('default', h=True), one('default', (1, 1, 3, 3)), one('noise')],
+            'C10': [one('default'), one('soft-restarts'), one('soft-restarts-autodetect'), one('noise'), one('hard-restarts'),
+                    one('default', xr=True), one('growing-safety-geom', G)],
+            'C18': [one('default'), one('diagnostics'), one('soft-restarts'), one('growing-reduce-delta', G), one('growing-safety-geom', G),
+                    one('noise'), one('default', h=True), one('soft-restarts-increase-npt')],
+            'C01': [one('default'), one('growing', G), one('regression-momentum'), one('soft-restarts'), one('default', (2, 1, 3, 3))],
+            'C19': [one('default'), one('growing-perturb', G), one('regression-momentum'), one('soft-restarts-increase-npt'), one('growing', G)],
+            'C11': [one('default'), one('soft-restarts'), one('hard-restarts')],
+            'C08': [one('default', xr=True), one('default', fault='raise'), one('soft-restarts', xr=True), one('noise', xr=True),
+                    one('default', xr=True, ns=2), one('default', h=True, xr=True)],
+        }
+        combos = THOROUGH.get(pid, [one('default'), one('soft-restarts')])
     if pid == 'C09':
         combos = [D + ('default', False, False, 'one', None)] if tier == 'quick' else \
             [D + (p_, False, False, 'one', None) for p_ in ('default', 'soft-restarts', 'regression-geom', 'regression-momentum')] + \
@@ -478,7 +478,7 @@ def step_harnesses(tier, seed, pid):
                               n, m, npt_so_far, num_pts, preset, nsm),
                           assumptions=["INV: " + s for s in INV] + ["stub: " + s for s in STUBS],
                           expect=[], nproc=None, home='STEP', max_replays=3,
-                          wall_budget=(300 if tier == 'quick' else 1200)))
+                          wall_budget=(300 if tier == 'quick' else 700)))
     return hs
 
 
